@@ -15,7 +15,8 @@ RULE = ("paired runs in one process, constructed so that the floating-point "
         "NonlinearConstraint ('ineq' <-> [0,inf), 'eq' <-> [0,0]); one "
         "two-sided LinearConstraint <-> (upper part, lower part); one "
         "two-sided NonlinearConstraint <-> (lower part, upper part); "
-        "regrouping of adjacent one-sided linear rows; fixed variables <-> "
+        "regrouping of adjacent linear rows (one-sided, two-sided, "
+        "equalities); fixed variables <-> "
         "the reduced problem; scale=True <-> the explicit unit-box problem "
         "(for the last two the second run is given the solver's own "
         "transformed data captured at Problem.__init__ and the user "
@@ -111,6 +112,32 @@ def compare(ra, rb, viols, kind, info, xmap=None, internal=False):
                        mechanism=kind + ":" + bad[0].split(" ")[0]))
 
 
+def settings_compare(ra, rb, viols, info):
+    """The completed options / constants the solver works with (taps on
+    _set_default_options, _set_default_constants) agree between the two
+    statements, except for the ``scale`` flag the restatement changes."""
+    for part in ("options", "constants"):
+        a = ra.run.settings.get(part)
+        b = rb.run.settings.get(part)
+        if a is None or b is None:
+            continue
+        info["settings_compared"] = info.get("settings_compared", 0) + 1
+        diff = []
+        for k in sorted(set(a) | set(b), key=str):
+            if str(k) == "scale" or str(getattr(k, "value", k)) == "scale":
+                continue
+            va, vb = a.get(k, "<missing>"), b.get(k, "<missing>")
+            same = va == vb or (isinstance(va, float) and isinstance(vb, float)
+                                and math.isnan(va) and math.isnan(vb))
+            if not same:
+                diff.append(f"{getattr(k, 'value', k)}: {va!r} vs {vb!r}")
+        if diff:
+            viols.append(V("completed_settings_differ",
+                           f"the completed {part} of the two statements "
+                           f"differ: {'; '.join(diff[:4])}",
+                           mechanism="settings:" + diff[0].split(":")[0]))
+
+
 def base_spec(rng, con, **kw):
     return gen.general(rng, con=con, maxfev=(30, 100), with_callback=False,
                        forms=("nlc",), **kw)
@@ -190,7 +217,8 @@ def residual_check(rec, rng, viols, info):
             mg = np.abs(a) @ np.abs(xf)
             for i in range(a.shape[0]):
                 lo, hi = lc["lb"][i], lc["ub"][i]
-                if np.isfinite(lo) and np.isfinite(hi) and abs(hi - lo) <= tol:
+                if np.isfinite(lo) and np.isfinite(hi) and \
+                        abs(hi - lo) <= tol[i]:
                     eq_usr.append(abs(v[i] - 0.5 * (lo + hi)))
                     mags.append(mg[i] + abs(lo))
                     continue
@@ -213,7 +241,7 @@ def residual_check(rec, rng, viols, info):
                                                 lc["A"])))) for lc in b.lin)
         tol = 64 * EPS * (max(mags, default=0.0)
                           + amax * float(np.max(np.abs(fin))) * b.n) + max(
-            truth.eq_tol(lc["lb"], lc["ub"]) for lc in b.lin)
+            float(np.max(truth.eq_tol(lc["lb"], lc["ub"]))) for lc in b.lin)
         for got, want, nm in ((ub_int, np.sort(ub_usr), "inequality"),
                               (eq_int, np.sort(eq_usr), "equality")):
             if got.size and float(np.max(np.abs(got - want))) > tol:
@@ -279,11 +307,14 @@ def run_case(case):
                           "ub": [math.inf] * m}]
             kind = "two-sided linear vs (upper, lower)"
         else:
-            mixed = bool(rng.random() < 0.3)
-            lo, hi, ks = gen.limits(
-                rng, m, a @ x0, kinds=("upper", "lower") if mixed else
-                (str(rng.choice(["upper", "lower"])),))
-            mixed = len(set(ks)) > 1
+            r = rng.random()
+            if r < 0.25:
+                kinds = ("upper", "lower")
+            elif r < 0.45:
+                kinds = ("upper", "lower", "two", "eq")
+            else:
+                kinds = (str(rng.choice(["upper", "lower"])),)
+            lo, hi, ks = gen.limits(rng, m, a @ x0, kinds=kinds)
             spec["lin"] = [{"A": a.tolist(), "lb": lo.tolist(),
                             "ub": hi.tolist()}]
             cut = int(rng.integers(1, m))
@@ -292,8 +323,21 @@ def run_case(case):
                           "ub": hi[:cut].tolist()},
                          {"A": a[cut:].tolist(), "lb": lo[cut:].tolist(),
                           "ub": hi[cut:].tolist()}]
-            kind = "regrouped one-sided linear rows" + (
-                " of mixed kinds" if mixed else "")
+
+            def order(groups):
+                """Internal inequality-row order the solver documents: per
+                object, the upper parts of its rows, then the lower parts."""
+                out = []
+                for g in groups:
+                    out += [(i, "u") for i in g if ks[i] in ("upper", "two")]
+                    out += [(i, "l") for i in g if ks[i] in ("lower", "two")]
+                return out
+            same_order = order([range(m)]) == order([range(cut),
+                                                     range(cut, m)])
+            kind = "regrouped linear rows" + (
+                "" if same_order else ": internal row order changes")
+            tags.append("regroup_order_" + ("same" if same_order
+                                            else "changes"))
         ra, rb = mrun.run(spec), mrun.run(s2)
         compare(ra, rb, viols, kind, info)
         nt = f"{fam}|m{m}|n{n}|{spec['con_kind']}"
@@ -379,11 +423,19 @@ def run_case(case):
             spec["options"]["nb_points"] = int(min(
                 max(spec["options"]["nb_points"], nred + 1),
                 (nred + 1) * (nred + 2) // 2))
+        if rng.random() < 0.35:
+            # budgets left to their defaults: the completed settings of the
+            # two statements must agree as well (defaults are functions of
+            # the number of FREE variables)
+            for key in ("maxfev", "maxiter", "nb_points"):
+                spec["options"].pop(key, None)
+            tags.append("default_budgets")
         ra = mrun.run(spec)
         pb = ra.run.pb
         if pb is None or ra.exc is not None or pb.n == 0:
             return e2e.record(case, [], tags=tags + ["skip"], skipped=True)
         rb = transformed_run(spec, ra)
+        settings_compare(ra, rb, viols, info)
         kind = {"fixed": "fixed variables vs reduced problem",
                 "scale": "scale=True vs explicit unit-box problem",
                 "fixed_scale": "fixed+scaled vs reduced unit-box problem"}[fam]
@@ -395,7 +447,8 @@ def run_case(case):
             nt = f"{fam}|{con}|n{n}|fix{nfix}|sc{int(nonunit)}"
     counts = {"pairs_compared": info.get("pairs", 0),
               "evaluations_compared": info.get("evals", 0),
-              "residual_points": info.get("residual_points", 0)}
+              "residual_points": info.get("residual_points", 0),
+              "settings_compared": info.get("settings_compared", 0)}
     for v in viols:
         v["witness"]["spec"] = e2e.jsonable(spec)
     sample = None
